@@ -33,6 +33,9 @@ import (
 
 var env *sqdb.Env
 
+// another process that can hold a read lock on the shared range
+var peer *locks.Peer
+
 type spec struct {
 	PageSize    int
 	JournalMode string // DELETE, TRUNCATE, PERSIST
@@ -75,8 +78,11 @@ func TestC09Crash(t *testing.T) {
 			if env, err = sqdb.NewEnv(); err != nil {
 				r.Harness(t, "env: %v", err)
 			}
+			if peer, err = locks.StartPeer(); err != nil {
+				r.Harness(t, "peer: %v", err)
+			}
 		},
-		Teardown: func() { env.Close() },
+		Teardown: func() { peer.Stop(); env.Close() },
 		Gen: func(t *rapid.T) spec {
 			s := spec{
 				PageSize:    rapid.SampledFrom([]int{512, 512, 1024, 4096}).Draw(t, "ps"),
@@ -382,6 +388,20 @@ func run(r *vt.Run, t vt.TB, s spec) {
 			got2, gerr2 := readAllHandle(old)
 			old.Close()
 			got, gerr := readAllSqlittle(a)
+			// a third reader arrives while another process holds a read lock
+			// on the shared range (another reader that is looking at the file
+			// at this moment): that is no sign of a living writer
+			d := filepath.Join(dir, "d.sqlite")
+			sqdb.Remove(d)
+			copyFile(work, d)
+			if jerr == nil {
+				copyFile(work+"-journal", d+"-journal")
+			}
+			if pr, err := peer.Call("rawshared", d); err != nil || !pr.Held {
+				r.Harness(t, "peer rawshared: %v %s", err, pr.Err)
+			}
+			got3, gerr3 := readAllSqlittle(d)
+			peer.Call("rawunlock", "")
 			if err := env.O.Open("rec", b); err != nil {
 				r.Harness(t, "open recovery copy: %v", err)
 			}
@@ -411,7 +431,7 @@ func run(r *vt.Run, t vt.TB, s spec) {
 				got  map[string][][]interface{}
 				err  error
 			}
-			for _, ob := range []observer{{"fresh handle", got, gerr}, {"handle opened before the crash", got2, gerr2}} {
+			for _, ob := range []observer{{"fresh handle", got, gerr}, {"handle opened before the crash", got2, gerr2}, {"fresh handle while another process holds a read lock", got3, gerr3}} {
 				got, gerr := ob.got, ob.err
 				where := where0 + "; " + ob.name
 				if gerr != nil {
